@@ -354,7 +354,9 @@ func buildC02(tier string) *core.Plan {
 
 	// targeting: case = (base, first layer); inner loop = further layers
 	targeting := core.Space{Name: "targeting", N: int64(len(bases)) * nl,
-		Desc: func(i int64) any { return map[string]any{"base": bases[i/nl], "layer1": l1[i%nl], "then": "every second layer (thorough: and third)"} },
+		Desc: func(i int64) any {
+			return map[string]any{"base": bases[i/nl], "layer1": l1[i%nl], "then": "every second layer (thorough: and third)"}
+		},
 		Run: func(c *core.Ctx, i int64) {
 			base, a := bases[i/nl], l1[i%nl]
 			c02History(c, "refStream", base, [][]c02Doc{a})
@@ -380,7 +382,9 @@ func buildC02(tier string) *core.Plan {
 		s1, s2, s3 := c02TargetLayers(1, 1), c02TargetLayers(2, 1), c02TargetLayers(3, 1)
 		ns1 := int64(len(s1))
 		spaces = append(spaces, core.Space{Name: "targeting-3-layers-narrow", N: int64(len(two)) * ns1,
-			Desc: func(i int64) any { return map[string]any{"base": two[i/ns1], "layer1": s1[i%ns1], "then": "every 2nd and 3rd single-document layer"} },
+			Desc: func(i int64) any {
+				return map[string]any{"base": two[i/ns1], "layer1": s1[i%ns1], "then": "every 2nd and 3rd single-document layer"}
+			},
 			Run: func(c *core.Ctx, i int64) {
 				base, a := two[i/ns1], s1[i%ns1]
 				for _, b := range s2 {
@@ -397,7 +401,9 @@ func buildC02(tier string) *core.Plan {
 		w2 := c02TargetLayers(2, 3)
 		nw := int64(len(w1))
 		spaces = append(spaces, core.Space{Name: "targeting-wide-layers", N: int64(len(bases)) * nw,
-			Desc: func(i int64) any { return map[string]any{"base": bases[i/nw], "layer1": w1[i%nw], "then": "every second layer of <=3 docs"} },
+			Desc: func(i int64) any {
+				return map[string]any{"base": bases[i/nw], "layer1": w1[i%nw], "then": "every second layer of <=3 docs"}
+			},
 			Run: func(c *core.Ctx, i int64) {
 				base, a := bases[i/nw], w1[i%nw]
 				if len(a) == 3 {
@@ -440,7 +446,9 @@ func buildC02(tier string) *core.Plan {
 	sl := c02ShareLayers()
 	nsl := int64(len(sl))
 	spaces = append(spaces, core.Space{Name: "sharing", N: int64(len(shareBases)) * nsl,
-		Desc: func(i int64) any { return map[string]any{"base": shareBases[i/nsl], "layer1": sl[i%nsl], "then": "every 2nd and 3rd layer"} },
+		Desc: func(i int64) any {
+			return map[string]any{"base": shareBases[i/nsl], "layer1": sl[i%nsl], "then": "every 2nd and 3rd layer"}
+		},
 		Run: func(c *core.Ctx, i int64) {
 			base, a := shareBases[i/nsl], sl[i%nsl]
 			c02History(c, "refStream-sharing", base, [][]c02Doc{a})
@@ -486,7 +494,9 @@ func buildC02(tier string) *core.Plan {
 	tcBases := c02Streams(c02BaseDocs[:4], 2)
 	ntb := int64(len(tcBases))
 	spaces = append(spaces, core.Space{Name: "files-two-chains-same-names", N: ntb * ntb,
-		Desc: func(i int64) any { return map[string]any{"one/svc.yaml": tcBases[i/ntb], "two/svc.yaml": tcBases[i%ntb], "two/svc.prod.yaml": "every layer of <=2 documents"} },
+		Desc: func(i int64) any {
+			return map[string]any{"one/svc.yaml": tcBases[i/ntb], "two/svc.yaml": tcBases[i%ntb], "two/svc.prod.yaml": "every layer of <=2 documents"}
+		},
 		Run: func(c *core.Ctx, i int64) {
 			b1, b2 := tcBases[i/ntb], tcBases[i%ntb]
 			for li, l2 := range fl1 {
@@ -506,7 +516,9 @@ func buildC02(tier string) *core.Plan {
 	}
 	n3 := int64(len(only3))
 	spaces = append(spaces, core.Space{Name: "files-3doc-bases", N: n3 * nfl,
-		Desc: func(i int64) any { return map[string]any{"base": only3[i/nfl], "layer1": fl1[i%nfl], "then": "7 second layers"} },
+		Desc: func(i int64) any {
+			return map[string]any{"base": only3[i/nfl], "layer1": fl1[i%nfl], "then": "7 second layers"}
+		},
 		Run: func(c *core.Ctx, i int64) {
 			base, a := only3[i/nfl], fl1[i%nfl]
 			c02Files(c, "yaml", base, [][]c02Doc{a})
